@@ -187,6 +187,20 @@ func runC14(c *kit.Ctx) {
 				}
 			}
 			hasClose = len(kit.Calls(crs, kit.M("hrpc", "", "CloseScanner"))) == 1
+			// the close request must not inherit the scan's context: the region client drops
+			// requests whose context is done, and a cancelled scan is exactly when this runs
+			for _, nsr := range kit.Calls(crs, kit.M("hrpc", "", "NewScanRange")) {
+				ca := &ctxAnalysis{p: p, entries: map[*ssa.Function]bool{}}
+				ca.param = map[*ssa.Parameter]map[string]origin{}
+				os := ca.originOf(nsr.Common().Args[0], 0)
+				bg := len(os) > 0
+				for _, o := range os {
+					if o.Kind != "background" {
+						bg = false
+					}
+				}
+				c.Check(bg, crs, "close-request-context", nsr.Pos(), "the close request uses a context of its own (context.Background), not the scan's", "the close request is created with "+describeOrigins(os)+": when the scan was cancelled (or its deadline passed) the region client drops the request unsent and the scanner lease stays open")
+			}
 			c.Check(e == nil && hasID && hasClose, crs, "id-cleared-after-close-request", st.Pos(), "cleared only after a close request with ScannerID(id)+CloseScanner() was started (or the scan is itself closing)",
 				"closeRegionScanner forgets the id without sending an explicit close for it: "+c.BlockPath(e))
 		default:
